@@ -536,7 +536,7 @@ fn main() {
     }
 
     let cfgs = alphabet::configs(thorough);
-    let mut alphas: Vec<Vec<MsgSpec>> = vec![alphabet::m1(), alphabet::m1_core(), alphabet::m1_serial(), alphabet::m2(thorough), alphabet::m2b(thorough)];
+    let mut alphas: Vec<Vec<MsgSpec>> = vec![alphabet::m1(), alphabet::m1_core(), alphabet::m1_serial(), alphabet::m2(thorough), alphabet::m2b(thorough), alphabet::kinds()];
     // VERIF_SEED only permutes the enumeration order (a rotation of every alphabet)
     for a in alphas.iter_mut() {
         let n = a.len();
@@ -550,11 +550,25 @@ fn main() {
     const A_SERIAL: usize = 2;
     const A_M2: usize = 3;
     const A_M2B: usize = 4;
+    const A_KINDS: usize = 5;
     ctx.set("alphabet_m1", json!(alphas[A_M1].len()));
     ctx.set("alphabet_m1_core", json!(alphas[A_CORE].len()));
     ctx.set("alphabet_m1_serial", json!(alphas[A_SERIAL].len()));
     ctx.set("alphabet_m2", json!(alphas[A_M2].len()));
     ctx.set("alphabet_m2b", json!(alphas[A_M2B].len()));
+    ctx.set("alphabet_kinds", json!(alphas[A_KINDS].len()));
+    // vupd::kinds (the "one of every special kind" list C14 journals) must stay inside this
+    // check's exhaustive update alphabet
+    {
+        let atoms: Vec<Rr> = alphabet::update_atoms().iter().map(|a| a.materialise(1000)).collect();
+        for k in vupd::kinds::all() {
+            for rr in (k.build)(1000).updates {
+                if !atoms.contains(&rr) {
+                    ctx.machinery_failure(&format!("vupd::kinds '{}' uses an update RR that is no atom of the C12 alphabet: {}", k.name, vupd::rr_text(&rr)));
+                }
+            }
+        }
+    }
     ctx.set("prerequisite_atoms", json!(alphabet::prereq_atoms().len()));
     ctx.set("update_atoms", json!(alphabet::update_atoms().len()));
     ctx.set("configs", json!(cfgs.iter().map(|c| c.name.clone()).collect::<Vec<_>>()));
@@ -686,6 +700,7 @@ fn main() {
             }
             if depth <= 1 && (!cfg.dnssec || depth == 0) {
                 push(A_M2B, false);
+                push(A_KINDS, false);
             }
         }
         let results: Mutex<Vec<(u64, Vec<Node>)>> = Mutex::new(vec![]);
